@@ -105,6 +105,37 @@ fn drain_peer(peer: &UdpSocket, events: &mut Vec<UEv>) {
     let _ = peer.set_nonblocking(false);
 }
 
+/// Sockets of this world are bound to explicit ports below the kernel's ephemeral range
+/// (32768..), from a block private to the worker thread. A port that a scenario frees (peer
+/// crash) can therefore never be handed by the kernel to another worker's `bind(:0)` while the
+/// scenario is waiting to rebind it — which would cross-wire two runs.
+fn bind_private() -> Option<UdpSocket> {
+    use std::sync::atomic::{AtomicU16, Ordering};
+    static NEXT_BLOCK: AtomicU16 = AtomicU16::new(0);
+    thread_local! {
+        static BLOCK: std::cell::Cell<Option<u16>> = const { std::cell::Cell::new(None) };
+        static NEXT: std::cell::Cell<u16> = const { std::cell::Cell::new(0) };
+    }
+    let block = BLOCK.with(|b| {
+        if b.get().is_none() {
+            b.set(Some(NEXT_BLOCK.fetch_add(1, Ordering::Relaxed) % 40));
+        }
+        b.get().unwrap()
+    });
+    for _ in 0..300 {
+        let k = NEXT.with(|n| {
+            let v = n.get();
+            n.set((v + 1) % 300);
+            v
+        });
+        let port = 12_000 + block * 300 + k;
+        if let Ok(s) = UdpSocket::bind(("127.0.0.1", port)) {
+            return Some(s);
+        }
+    }
+    None
+}
+
 fn rebind(addr: std::net::SocketAddr, to: std::net::SocketAddr) -> Option<UdpSocket> {
     for _ in 0..50 {
         if let Ok(s) = UdpSocket::bind(addr) {
@@ -137,13 +168,13 @@ fn frames_in(mode: SizeMode, burst: &[Vec<u8>]) -> usize {
 
 fn run_udp(sc: &UdpSc) -> UdpRun {
     let mut events = Vec::new();
-    let mut peer = match UdpSocket::bind("127.0.0.1:0") {
-        Ok(s) => s,
-        Err(e) => return UdpRun { events, harness_error: Some(format!("bind: {}", e)) },
+    let mut peer = match bind_private() {
+        Some(s) => s,
+        None => return UdpRun { events, harness_error: Some("bind".into()) },
     };
-    let conn = match UdpSocket::bind("127.0.0.1:0") {
-        Ok(s) => s,
-        Err(e) => return UdpRun { events, harness_error: Some(format!("bind: {}", e)) },
+    let conn = match bind_private() {
+        Some(s) => s,
+        None => return UdpRun { events, harness_error: Some("bind".into()) },
     };
     let peer_addr = peer.local_addr().unwrap();
     let conn_addr = conn.local_addr().unwrap();
@@ -201,9 +232,9 @@ fn run_udp(sc: &UdpSc) -> UdpRun {
                             pre = Some(rd(&mut framed));
                         }
                         // crash: the peer's socket goes away
-                        let placeholder = match UdpSocket::bind("127.0.0.1:0") {
-                            Ok(s) => s,
-                            Err(_) => return UdpRun { events, harness_error: Some("bind".into()) },
+                        let placeholder = match bind_private() {
+                            Some(s) => s,
+                            None => return UdpRun { events, harness_error: Some("bind".into()) },
                         };
                         drop(std::mem::replace(&mut peer, placeholder));
                         let to_res = |r: Result<insim::Result<()>, String>| match r {
@@ -310,7 +341,7 @@ fn run_udp(sc: &UdpSc) -> UdpRun {
                                     Ok(Err(e)) => AppRes::from_err(&e),
                                 });
                             }
-                            let placeholder = UdpSocket::bind("127.0.0.1:0").map_err(|e| e.to_string())?;
+                            let placeholder = bind_private().ok_or_else(|| "bind".to_string())?;
                             drop(std::mem::replace(&mut peer, placeholder));
                             let lost_res = match ref_decode_packet(sc.mode, lost).1 {
                                 Some(p) => match tokio::time::timeout(OP_TIMEOUT, framed.write(p)).await {
